@@ -146,7 +146,24 @@ def _sym_ops_tables(cell, symprec=1e-5):
     ptg = sym.pointgroup_operations
     Rp = [similarity_transformation(lattice.T, r) for r in ptg]
     Rpi = [np.linalg.inv(r) for r in Rp]
-    return np.array(rots), np.array(R), np.array(Ri), np.array(perm), np.array(Rp), np.array(Rpi)
+    # multiplication table: mul[h][g] = an operation with rotation r_h r_g and atom map perm_g o perm_h
+    ng = len(rots)
+    perm = np.array(perm)
+    mul = -np.ones((ng, ng), dtype=int)
+    rep_err = 0.0
+    for h in range(ng):
+        used = set()
+        for g in range(ng):
+            rr = rots[h] @ rots[g]
+            pp = perm[g][perm[h]]
+            for x in range(ng):
+                if x not in used and (rots[x] == rr).all() and (perm[x] == pp).all():
+                    mul[h, g] = x
+                    used.add(x)
+                    break
+            if mul[h, g] >= 0:
+                rep_err = max(rep_err, float(np.abs(R[mul[h, g]] - R[h] @ R[g]).max()), float(np.abs(R[g] @ Ri[g] - np.eye(3)).max()))
+    return np.array(rots), np.array(R), np.array(Ri), perm, np.array(Rp), np.array(Rpi), mul, rep_err
 
 
 def main(run):
@@ -238,8 +255,12 @@ def main(run):
         sc = max(1.0, max(float(np.abs(v).max()) for v in plain.values()))
 
         # ---- symmetrisation of Born charges / dielectric tensor: correspondence + projection oracle
-        rots, R, Ri, perm, Rp, Rpi = _sym_ops_tables(prim)
-        lines.append("groupwf %d %d %s %s" % (npa, len(R), U.ints(rots), U.ints(perm)))
+        rots, R, Ri, perm, Rp, Rpi, mul, rep_err = _sym_ops_tables(prim)
+        run.count("representation hypothesis R(hg)=R(h)R(g), R R^-1 = 1 checked (max err %.0e)" % (10 ** np.ceil(np.log10(max(rep_err, 1e-17)))), section="correspondence")
+        if (mul < 0).any() or rep_err > 1e-9:
+            run.broke("correspondence", "symmetry operations do not form a group table / Cartesian rotations are not a representation (err %.3g)" % rep_err, info0)
+            mul = np.maximum(mul, 0)
+        lines.append("groupwf %d %d %s %s %s" % (npa, len(R), U.ints(rots), U.ints(perm), U.ints(mul)))
         meta.append(("group-certificate", info0, lambda line: None if line == "true" else "groupWf = %s on the implementation's operations" % line))
         lines.append("symborns %d %d %s %s %s %s" % (npa, len(R), U.flat(R), U.flat(Ri), U.ints(perm), U.flat(born0)))
         meta.append(("symmetrize-borns", info0, lambda line, b=born_s: _cmp(U.parse_rats(line, b.shape), b)))
